@@ -166,7 +166,9 @@ class PysparkClassGetItem(ClassGetItem):
     target = "pandera.api.pyspark.model:DataFrameModel.__class_getitem__"
     model_path = ("pandera.api.pyspark.model", "DataFrameModel")
     sym_globals = {"pandera.api.pyspark.model:GENERIC_SCHEMA_CACHE": T.Lazy(lambda n: _Cache())}
-    concretize = None
+
+    def concretize(self, rec):
+        return None  # (pyspark models need a Spark session to replay)
 
 
 CONTRACTS = [ClassGetItem, PysparkClassGetItem]
